@@ -19,6 +19,7 @@ mod c17;
 mod c18;
 mod c19;
 mod c20;
+mod c20w;
 mod decode;
 mod explore;
 mod fsmon;
@@ -45,6 +46,7 @@ fn main() {
             0
         }
         Some("c08child") => c08::child(&args[2], &args[3]),
+        Some("c20child") => c20w::child(&args[2], &args[3], &args[4]),
         Some("c19child") => c19::child(&args[2], &args[3]),
         Some("parse1") => c17::parse1(&args[2]),
         Some("selftest") => match interpose::self_test(&explore::work_root()) {
